@@ -279,14 +279,24 @@ func (ps *PubSub) subscribe(conn redcon.Conn, pattern bool, channel string) {
 	sconn.mu.Lock()
 	defer sconn.mu.Unlock()
 
-	// add an entry to the pubsub btree
-	entry := &pubSubEntry{
-		pattern: pattern,
-		channel: channel,
-		sconn:   sconn,
+	// add an entry to the pubsub btree, unless this connection is already
+	// subscribed to the channel/pattern: subscribing again changes nothing.
+	var entry *pubSubEntry
+	for ient := range sconn.entries {
+		if ient.pattern == pattern && ient.channel == channel {
+			entry = ient
+			break
+		}
 	}
-	ps.chans.Set(entry)
-	sconn.entries[entry] = true
+	if entry == nil {
+		entry = &pubSubEntry{
+			pattern: pattern,
+			channel: channel,
+			sconn:   sconn,
+		}
+		ps.chans.Set(entry)
+		sconn.entries[entry] = true
+	}
 
 	// send a message to the client
 	sconn.dconn.WriteArray(3)
